@@ -30,6 +30,7 @@ import JanetModel.Lib.Boot8Proofs
 import JanetModel.Lib.MiscC2Proofs
 import JanetModel.Lib.Boot9Proofs
 import JanetModel.Lib.Boot10Proofs
+import JanetModel.Lib.Boot11Proofs
 namespace JanetModel.Props.C17
 open JanetModel.Lib JanetModel.Gen.Lib
 
@@ -598,5 +599,22 @@ theorem boot_flatten_reverse_merge {α κ β : Type} [BEq κ] [LawfulBEq κ] (fu
 
 example : Boot.flatten 3 [.leaf 1, .node [.leaf 2, .node [.leaf 3]]] = .ok [1, 2, 3] ∧
     Boot.reverseBang [1, 2, 3, 4] = .ok [4, 3, 2, 1] ∧ Boot.merge [[(1, 10)], [(1, 11), (2, 20)]] = .ok [(1, 11), (2, 20)] := by decide
+
+/-- `map-n n` for EVERY n (map-template instantiates n = 1, 2, 3) and the general branch of map-template (`iter-keys` /
+    `call-buffer` arrays, `forv` with `(break)`, `done` flag), with any aggregator that does not itself `(break)` (:map,
+    :mapcat, :keep, :count): both fold the aggregator over the rows `j < m`, `m` the length of the shortest of all the
+    sequences — so `map` / `mapcat` / `keep` / `count` over any number of sequences stop at the shortest one, never index
+    out of range and terminate; `interleave` of any number of columns is that fold with `mapcat tuple` -/
+theorem boot_map_any_arity {α β γ σ : Type} (agg : σ → γ → σ) (f : α → List β → γ) (init : σ) (ind : List α)
+    (inds : List (List β)) (c0 : List α) (cols : List (List α)) :
+    Boot.mapN agg f init ind inds = .ok (Boot.mapRows agg f init ind inds) ∧
+    Boot.mapGen agg f init ind inds = .ok (Boot.mapRows agg f init ind inds) ∧
+    (Boot.mapRows (fun (res : Array α) (row : List α) => res ++ row.toArray) (fun x row => x :: row) #[] c0 cols).toList
+      = interleave (c0 :: cols) :=
+  ⟨Boot.mapN_eq_spec agg f init ind inds, Boot.mapGen_eq_spec agg f init ind inds, Boot.interleave_eq_mapRows c0 cols⟩
+
+example : Boot.mapGen (fun (s : List Nat) v => s ++ [v]) (fun (x : Nat) row => x + row.foldl (· + ·) 0) [] [1, 2, 3]
+    [[10, 20, 30], [100, 200], [1000, 2000, 3000], [0, 0, 0, 0]] = .ok [1111, 2222] ∧
+    Boot.mapN (fun (s : List Nat) v => s ++ v) (fun (x : Nat) row => x :: row) [] [1, 2] [[3, 4], [5, 6, 7]] = .ok [1, 3, 5, 2, 4, 6] := by decide
 
 end JanetModel.Props.C17
